@@ -1,7 +1,9 @@
 """C06 — symbolic equality, hashing and ordering obey their algebraic laws."""
+import collections
 import contextlib
 import copy
 import functools
+import typing
 
 import pyglove as pg
 
@@ -163,6 +165,94 @@ def accepts(cls, f):
 def all_fields(cls):
   return list(FIELDS[cls]) + DYN.get(cls, [])
 
+
+# Values of subclasses of the container types: pg.eq / pg.lt treat every list,
+# every tuple and every dict alike, whatever its concrete class.
+
+class ML(pg.List):
+  """A user subclass of pg.List."""
+
+
+class MD(pg.Dict):
+  """A user subclass of pg.Dict."""
+
+
+SUBCONT = {'ML': ML, 'MD': MD}
+
+P1 = collections.namedtuple('P1', 'x')
+P2 = collections.namedtuple('P2', 'x y')
+P3 = collections.namedtuple('P3', 'x y z')
+
+
+class Q2(typing.NamedTuple):
+  x: typing.Any
+  y: typing.Any
+
+
+class TT(tuple):
+  """A user subclass of tuple (any length)."""
+
+
+# name -> (class, length it requires or None)
+TUPLE_CLASSES = {'P1': (P1, 1), 'P2': (P2, 2), 'Q2': (Q2, 2), 'P3': (P3, 3), 'TT': (TT, None)}
+
+
+def tuple_tags(n):
+  return sorted(t for t, (_, k) in TUPLE_CLASSES.items() if k is None or k == n)
+
+
+class Unequal:
+  """A leaf object of a non-symbolic class that is not == to anything, itself
+  included (pg.eq documents comparison by reference for such objects). Copies
+  are the object itself, like for other immutable leaves."""
+
+  def __eq__(self, other):
+    return False
+
+  def __ne__(self, other):
+    return True
+
+  def __lt__(self, other):
+    return False
+
+  def __gt__(self, other):
+    return False
+
+  def __hash__(self):
+    return id(self)
+
+  def __copy__(self):
+    return self
+
+  def __deepcopy__(self, memo):
+    return self
+
+  def __repr__(self):
+    return 'Unequal()'
+
+
+# Leaf objects that are not == to themselves, shared by reference between the
+# values of one pool: description ['h', i] is LEAVES[i] itself wherever it
+# occurs. New objects for every case.
+LEAVES = []
+LEAF_KINDS = ['nan', 'nan', 'nan', 'opaque', 'opaque']
+# What a leaf is replaced with to ask "does the law also fail without it".
+LEAF_SUBST = [7001.5, 7002.5, 7003.5, 'opaque#3', 'opaque#4']
+
+
+def reset_leaves():
+  LEAVES[:] = [float('nan') if k == 'nan' else Unequal() for k in LEAF_KINDS]
+
+
+def is_hostile(v):
+  return isinstance(v, Unequal) or (isinstance(v, float) and v != v)
+
+
+def item_desc(x):
+  """Description of a tuple item (a primitive or a shared leaf ['h', i])."""
+  return x if isinstance(x, list) else ['v', x]
+
+
 NUM_GROUPS = [
     [1, 1.0, True], [0, 0.0, False, -0.0], [2, 2.0], [-1, -1.0], [0.5], [-2],
     [2 ** 53, float(2 ** 53)], [2 ** 53 + 1], [10 ** 20, 1e20], [float('inf')],
@@ -174,8 +264,9 @@ INT_KEYS = [0, 1, 2]
 
 
 # ---------------------------------------------------------------------------
-# Descriptions: ['M'] | ['v', prim-or-None] | ['t', [prim...]] | ['l'|'L', [desc...]]
-#               | ['d'|'D', [[key, desc]...]] | ['O', clsname, [[field, desc]...]]
+# Descriptions: ['M'] | ['v', prim-or-None] | ['h', i] | ['t', [prim or ['h', i]...] (, tuple class)]
+#               | ['l'|'L', [desc...] (, 'ML')] | ['d'|'D', [[key, desc]...] (, 'MD')]
+#               | ['O', clsname, [[field, desc]...]]
 
 def build(d, perm=None):
   """The value of a description. With `perm` (a Random) the keys of dicts and
@@ -186,17 +277,27 @@ def build(d, perm=None):
     return MISSING
   if k == 'v':
     return d[1]
+  if k == 'h':
+    return LEAVES[d[1]]
   if k == 't':
-    return tuple(d[1])
+    items = [LEAVES[x[1]] if isinstance(x, list) else x for x in d[1]]
+    if len(d) > 2:
+      cls, arity = TUPLE_CLASSES[d[2]]
+      return cls(items) if arity is None else cls(*items)
+    return tuple(items)
   if k in 'lL':
     items = [build(x, perm) for x in d[1]]
-    return pg.List(items) if k == 'L' else items
+    if k == 'L':
+      return SUBCONT[d[2]](items) if len(d) > 2 else pg.List(items)
+    return items
   entries = list(d[1] if k in 'dD' else d[2])
   if perm is not None and len(entries) > 1 and perm.random() < 0.7:
     perm.shuffle(entries)
   if k in 'dD':
     items = {kk: build(x, perm) for kk, x in entries}
-    return pg.Dict(items) if k == 'D' else items
+    if k == 'D':
+      return SUBCONT[d[2]](items) if len(d) > 2 else pg.Dict(items)
+    return items
   if k == 'O':
     return CLASSES[d[1]](**{f: build(x, perm) for f, x in entries})
   raise ValueError(d)
@@ -208,14 +309,19 @@ def show(d):
     return 'MISSING'
   if k == 'v':
     return repr(d[1])
+  if k == 'h':
+    return f'{LEAF_KINDS[d[1]]}#{d[1]}'
   if k == 't':
-    return repr(tuple(d[1]))
+    s = ', '.join(show(item_desc(x)) for x in d[1])
+    if len(d) > 2:
+      return f'{d[2]}({s})' if TUPLE_CLASSES[d[2]][1] else f'{d[2]}(({s}{"," if d[1] else ""}))'
+    return f'({s}{"," if len(d[1]) == 1 else ""})'
   if k in 'lL':
     s = '[' + ', '.join(show(x) for x in d[1]) + ']'
-    return f'pg.List({s})' if k == 'L' else s
+    return f'{d[2] if len(d) > 2 else "pg.List"}({s})' if k == 'L' else s
   if k in 'dD':
     s = '{' + ', '.join(f'{kk!r}: {show(x)}' for kk, x in d[1]) + '}'
-    return f'pg.Dict({s})' if k == 'D' else s
+    return f'{d[2] if len(d) > 2 else "pg.Dict"}({s})' if k == 'D' else s
   return f'{d[1]}(' + ', '.join(f'{f}={show(x)}' for f, x in d[2]) + ')'
 
 
@@ -230,6 +336,23 @@ def depth_of(d):
   return 0
 
 
+def normalize(d):
+  """The description with every container / tuple of the base class and every
+  shared leaf replaced by an ordinary atom (one per leaf object)."""
+  k = d[0]
+  if k == 'h':
+    return ['v', LEAF_SUBST[d[1]]]
+  if k == 't':
+    return ['t', [LEAF_SUBST[x[1]] if isinstance(x, list) else x for x in d[1]]]
+  if k in 'lL':
+    return [k, [normalize(x) for x in d[1]]]
+  if k in 'dD':
+    return [k, [[kk, normalize(x)] for kk, x in d[1]]]
+  if k == 'O':
+    return ['O', d[1], [[f, normalize(x)] for f, x in d[2]]]
+  return d
+
+
 class Palette:
   """Per-pool choice of atoms, so that values collide often."""
 
@@ -242,8 +365,19 @@ class Palette:
     self.int_keys = rng.random() < 0.5
     self.classes = (['A', 'B', 'C', 'D', 'N'] + rng.sample(DYN_CLASSES, 2)
                     + (['S1', 'S2'] if self.same_qualname else []))
+    # Leaves that are not == to themselves (indices into LEAVES), subclasses of
+    # tuple, subclasses of pg.List / pg.Dict: each in a part of the pools.
+    self.hostile = []
+    if rng.random() < 0.35:
+      self.hostile = rng.sample([0, 1, 2], rng.choice([1, 2, 2]))
+      if rng.random() < 0.3:
+        self.hostile.append(rng.choice([3, 4]))
+    self.tuple_classes = rng.random() < 0.4
+    self.subcont = rng.random() < 0.2
 
   def atom(self, rng, allow_m):
+    if self.hostile and rng.random() < 0.15:
+      return ['h', rng.choice(self.hostile)]
     r = rng.random()
     if r < 0.5:
       return ['v', rng.choice(self.nums)]
@@ -255,7 +389,24 @@ class Palette:
 
   def tup(self, rng):
     src = self.nums if self.tuple_family == 'num' else self.strs
-    return ['t', [rng.choice(src) for _ in range(rng.randint(0, 3))]]
+    items = [rng.choice(src) for _ in range(rng.randint(0, 3))]
+    nans = [i for i in self.hostile if LEAF_KINDS[i] == 'nan']
+    if nans and items and self.tuple_family == 'num' and rng.random() < 0.3:
+      items[rng.randrange(len(items))] = ['h', rng.choice(nans)]
+    d = ['t', items]
+    if self.tuple_classes and rng.random() < 0.35:
+      d.append(rng.choice(tuple_tags(len(items))))
+    return d
+
+  def retag(self, rng, d):
+    """The tuple description `d` with a tuple class that suits its length
+    (another one than it has, when `d` has one that suits)."""
+    tags = [None] + tuple_tags(len(d[1]))
+    cur = d[2] if len(d) > 2 else None
+    if not self.tuple_classes and cur in tags:
+      return d[:3]
+    tag = rng.choice([t for t in tags if t != cur])
+    return ['t', d[1]] + ([tag] if tag else [])
 
   def key(self, rng):
     if self.int_keys and rng.random() < 0.35:
@@ -269,8 +420,9 @@ def gen(rng, pal, depth, allow_m):
     return pal.tup(rng) if rng.random() < 0.15 else pal.atom(rng, allow_m)
   if r < 0.55:
     sym = rng.random() < 0.5
-    return ['L' if sym else 'l', [gen(rng, pal, depth - 1, allow_m and not sym)
-                                  for _ in range(rng.randint(0, 3))]]
+    return (['L' if sym else 'l', [gen(rng, pal, depth - 1, allow_m and not sym)
+                                   for _ in range(rng.randint(0, 3))]]
+            + (['ML'] if sym and pal.subcont and rng.random() < 0.4 else []))
   if r < 0.77:
     sym = rng.random() < 0.5
     keys = []
@@ -278,8 +430,9 @@ def gen(rng, pal, depth, allow_m):
       kk = pal.key(rng)
       if kk not in keys:
         keys.append(kk)
-    return ['D' if sym else 'd', [[kk, gen(rng, pal, depth - 1, allow_m and not sym)]
-                                  for kk in keys]]
+    return (['D' if sym else 'd', [[kk, gen(rng, pal, depth - 1, allow_m and not sym)]
+                                   for kk in keys]]
+            + (['MD'] if sym and pal.subcont and rng.random() < 0.4 else []))
   cls = rng.choice(pal.classes)
   fields = [f for f in FIELDS[cls] if rng.random() < 0.7]
   if cls in DYN:
@@ -306,6 +459,13 @@ def mutate(rng, pal, d, allow_m=True):
     holder[idx] = mutate(rng, pal, holder[idx], am)
     return d
   r = rng.random()
+  if k == 'h':
+    if r < 0.5:
+      return pal.atom(rng, allow_m)
+    others = [i for i in pal.hostile if i != d[1] and LEAF_KINDS[i] == LEAF_KINDS[d[1]]]
+    if others and r < 0.7:
+      return ['h', rng.choice(others)]       # another object of the same kind
+    return rng.choice([['l', [d]], ['L', [d]], ['d', [['a', d]]], ['O', 'A', [['x', d]]]])
   if k in ('M', 'v'):
     if k == 'v' and isinstance(d[1], (bool, int, float)) and r < 0.5:
       for g in NUM_GROUPS:
@@ -317,12 +477,18 @@ def mutate(rng, pal, d, allow_m=True):
     return rng.choice([['l', [d]], ['L', [d]] if d[0] != 'M' else ['l', [d]],
                        ['d', [['a', d]]]])
   if k == 't':
+    if pal.tuple_classes and r < 0.4:
+      return pal.retag(rng, d)               # the same items in a tuple of another class
+    r = rng.random()
     if r < 0.5 and d[1]:
-      return ['t', d[1][:-1]]
+      return pal.retag(rng, ['t', d[1][:-1]] + d[2:]) if len(d) > 2 else ['t', d[1][:-1]]
     if r < 0.8:
-      return ['t', d[1] + pal.tup(rng)[1][:1]]
-    return rng.choice([['l', [['v', v] for v in d[1]]], ['L', [['v', v] for v in d[1]]]])
+      longer = ['t', d[1] + pal.tup(rng)[1][:1]] + d[2:]
+      return pal.retag(rng, longer) if len(d) > 2 else longer
+    return rng.choice([['l', [item_desc(v) for v in d[1]]], ['L', [item_desc(v) for v in d[1]]]])
   if k in 'lL':
+    if k == 'L' and pal.subcont and r < 0.15:
+      return ['L', d[1]] + ([] if len(d) > 2 else ['ML'])    # the same items, other list class
     if r < 0.25:
       return [{'l': 'L', 'L': 'l'}[k], d[1]] if not has_missing(d) else ['l', d[1][:-1]]
     if r < 0.45:
@@ -337,6 +503,8 @@ def mutate(rng, pal, d, allow_m=True):
     return [k, [pal.atom(rng, allow_m and k == 'l')] + d[1]]
   if k in 'dD':
     items = d[1]
+    if k == 'D' and pal.subcont and r < 0.15:
+      return ['D', items] + ([] if len(d) > 2 else ['MD'])    # the same items, other dict class
     if r < 0.35 and len(items) > 1:
       items = items[:]
       if rng.random() < 0.5:
@@ -417,6 +585,10 @@ def make_pool(rng, params):
   n_base = rng.randint(9, 11)
   descs = [['v', None], rng.choice([['M'], ['v', rng.choice(pal.nums)]]),
            ['v', rng.choice(pal.nums)], ['v', rng.choice(pal.strs)], pal.tup(rng)]
+  if pal.tuple_classes:
+    descs.append(pal.retag(rng, descs[-1]))
+  if pal.hostile and rng.random() < 0.5:
+    descs.append(['h', rng.choice(pal.hostile)])
   while len(descs) < n_base:
     d = gen(rng, pal, rng.choice([1, 2, 2, 3]), True)
     if depth_of(d) == 0 and rng.random() < 0.7:
@@ -438,9 +610,9 @@ def make_pool(rng, params):
 # Harness-side classification of operands (never of results).
 
 KINDS = ['MISSING', 'None', 'bool', 'int', 'float', 'str', 'list', 'List', 'tuple',
-         'dict', 'Dict', 'object']
+         'dict', 'Dict', 'object', 'opaque']
 RANK = {'MISSING': 0, 'None': 1, 'bool': 2, 'int': 2, 'float': 2, 'str': 3, 'list': 4,
-        'List': 4, 'tuple': 5, 'dict': 7, 'Dict': 7, 'object': 8}
+        'List': 4, 'tuple': 5, 'dict': 7, 'Dict': 7, 'object': 8, 'opaque': 8}
 
 
 def kind(v):
@@ -455,11 +627,25 @@ def kind(v):
       return name
   if isinstance(v, pg.Object):
     return 'object'
+  if isinstance(v, Unequal):
+    return 'opaque'
   raise ValueError(f'unexpected value in pool: {type(v)}')
 
 
 def flags(a, b, out):
   """Structural relations between two operands that the laws may be sensitive to."""
+  if a is b:
+    if is_hostile(a):
+      out.add('shared-nan-leaf' if isinstance(a, float) else 'shared-opaque-leaf')
+  elif isinstance(a, tuple) and isinstance(b, tuple):
+    if type(a) is not type(b):
+      out.add('tuple-subclass')
+    for x, y in zip(a, b):
+      flags(x, y, out)
+  if (isinstance(a, pg.Symbolic) and isinstance(b, pg.Symbolic) and type(a) is not type(b)
+      and (isinstance(a, list) and isinstance(b, list)
+           or isinstance(a, dict) and isinstance(b, dict))):
+    out.add('container-subclass')
   if isinstance(a, dict) and isinstance(b, dict):
     ka, kb = list(a.keys()), list(b.keys())
     if ka != kb:
@@ -488,6 +674,26 @@ def flags(a, b, out):
       out.add('same-qualname-classes')
 
 
+def undetermined(x, y):
+  """True when comparing x with y has to compare a leaf that is not == to itself
+  (NaN, Unequal) with any OTHER object: IEEE semantics / comparison by reference
+  then decide, and the order sentences do not apply. Where such a leaf only ever
+  meets itself, reflexivity decides and every law applies."""
+  if is_hostile(x) or is_hostile(y):
+    return x is not y
+  if (isinstance(x, list) and isinstance(y, list)
+      or isinstance(x, tuple) and isinstance(y, tuple)):
+    return any(undetermined(p, q) for p, q in zip(x, y))
+  if isinstance(x, dict) and isinstance(y, dict):
+    gx = x.sym_getattr if isinstance(x, pg.Symbolic) else x.__getitem__
+    gy = y.sym_getattr if isinstance(y, pg.Symbolic) else y.__getitem__
+    return any(undetermined(gx(k), gy(k)) for k in x.keys() if k in y)
+  if isinstance(x, pg.Object) and isinstance(y, pg.Object):
+    ky = set(y.sym_keys())
+    return any(undetermined(v, y.sym_getattr(k)) for k, v in x.sym_items() if k in ky)
+  return False
+
+
 def same(x, y):
   """The harness's own structural equality (used only to name mechanisms)."""
   kx, ky = MECH_KIND[kind(x)], MECH_KIND[kind(y)]
@@ -495,8 +701,10 @@ def same(x, y):
     return False
   if kx in ('MISSING', 'None'):
     return True
+  if kx == 'opaque':
+    return x is y
   if kx in ('number', 'str', 'tuple'):
-    return x == y
+    return x is y or x == y
   if kx == 'list':
     return len(x) == len(y) and all(same(p, q) for p, q in zip(x, y))
   if kx == 'dict':
@@ -534,8 +742,12 @@ def locus(a, b):
 
 MECH_KIND = {'MISSING': 'MISSING', 'None': 'None', 'bool': 'number', 'int': 'number',
              'float': 'number', 'str': 'str', 'list': 'list', 'List': 'list',
-             'tuple': 'tuple', 'dict': 'dict', 'Dict': 'dict', 'object': 'object'}
-MECH_ORDER = ['MISSING', 'None', 'number', 'str', 'list', 'tuple', 'dict', 'object']
+             'tuple': 'tuple', 'dict': 'dict', 'Dict': 'dict', 'object': 'object',
+             'opaque': 'opaque'}
+MECH_ORDER = ['MISSING', 'None', 'number', 'str', 'list', 'tuple', 'dict', 'object', 'opaque']
+# Classes of input whose share in a violation is established by asking the same
+# question with base-class containers / ordinary leaves (see Pool.mech).
+SPECIAL = ['container-subclass', 'tuple-subclass', 'shared-nan-leaf', 'shared-opaque-leaf']
 RAISE_PREF = ['same-qualname-classes', 'dict-mixed-key-types', 'dict-key-order',
               'object-key-order']
 LAW_PREF = ['dict-key-order', 'object-key-order']
@@ -543,9 +755,26 @@ LAW_PREF = ['dict-key-order', 'object-key-order']
 
 class Pool:
 
-  def __init__(self, descs):
+  def __init__(self, descs, rng=None):
     self.descs = descs
-    self.vals = [build(d) for d in descs]
+    self.vals = []
+    self.cloned = 0
+    for i, d in enumerate(descs):
+      # A value whose description occurred before is, half of the time, reached
+      # through another route: a shallow or deep clone of the earlier value
+      # (non-symbolic leaves are shared with it by reference).
+      j = descs.index(d)
+      if rng is not None and j < i and d[0] in 'lLdDO' and rng.random() < 0.5:
+        src = self.vals[j]
+        if isinstance(src, pg.Symbolic):
+          self.vals.append(src.clone(deep=rng.random() < 0.5))
+          self.cloned += 1
+          continue
+        if not has_missing(d):
+          self.vals.append(copy.deepcopy(src))
+          self.cloned += 1
+          continue
+      self.vals.append(build(d))
     self.kinds = [kind(v) for v in self.vals]
     self.n = len(descs)
     self.shown = [show(d) for d in descs]
@@ -559,12 +788,21 @@ class Pool:
       self._flags[key] = out
     return self._flags[key]
 
-  def mech(self, idx, raising=False):
+  def mech(self, idx, raising=False, clause=None):
     """Mechanism class of one value, a pair or a triple of pool members."""
     fl = set()
     for a in range(len(idx)):
       for b in range(a + 1, len(idx)):
         fl |= self.flags(idx[a], idx[b])
+    special = [x for x in SPECIAL if x in fl]
+    if special and len(idx) == 2 and clause is not None:
+      # Does the pair break the same law with containers / tuples of the base
+      # classes and ordinary atoms in place of the shared leaves? If not, these
+      # decide.
+      da, db = self.descs[idx[0]], self.descs[idx[1]]
+      x, y = build(normalize(da)), build(normalize(db))
+      if clause not in pair_clauses(x, y, twin=da == db):
+        return '+'.join(special)
     if raising:
       for name in RAISE_PREF:
         if name in fl:
@@ -600,6 +838,39 @@ def call(fn, *args):
     return fn(*args)
   except Exception as e:  # pylint: disable=broad-except
     return Raised(e)
+
+
+def pair_clauses(x, y, twin=False):
+  """The pair laws that (x, y) breaks (names of clauses)."""
+  out = set()
+  res = {}
+  for name, fn, p, q in (('eq', pg.eq, x, y), ('eq2', pg.eq, y, x), ('ne', pg.ne, x, y),
+                         ('lt', pg.lt, x, y), ('lt2', pg.lt, y, x), ('gt', pg.gt, x, y)):
+    r = call(fn, p, q)
+    if isinstance(r, Raised):
+      out.add(f'{name.rstrip("2")}-raises')
+    elif not isinstance(r, bool):
+      out.add(f'{name.rstrip("2")}-not-bool')
+    res[name] = r if isinstance(r, bool) else None
+  e1, e2, ne, l1, l2, g = (res[k] for k in ('eq', 'eq2', 'ne', 'lt', 'lt2', 'gt'))
+  if e1 is not None and ne is not None and ne != (not e1):
+    out.add('ne-not-negation-of-eq')
+  if e1 is not None and e2 is not None and e1 != e2:
+    out.add('eq-asymmetric')
+  elif twin and e1 is False:
+    out.add('eq-twin-unequal')
+  if g is not None and l2 is not None and g != l2:
+    out.add('gt-not-swapped-lt')
+  if None not in (e1, l1, l2) and int(l1) + int(e1) + int(l2) != 1:
+    out.add('lt-and-eq-both-true' if e1 and (l1 or l2) else
+            'lt-both-directions' if l1 and l2 else 'lt-eq-gt-none-holds')
+  if e1:
+    hx, hy = call(pg.hash, as_symbolic(x)), call(pg.hash, as_symbolic(y))
+    if isinstance(hx, Raised) or isinstance(hy, Raised):
+      out.add('hash-raises')
+    elif hx != hy:
+      out.add('eq-hash-differ')
+  return out
 
 
 def as_symbolic(v):
@@ -1072,22 +1343,34 @@ def cases(ctx):
 def run_case(ctx, i):
   rng = ctx.rng
   c = ctx.counters
+  reset_leaves()
   pal, descs = make_pool(rng, ctx.params)
   ctx.label = 'build-pool'
-  P = Pool(descs)
+  P = Pool(descs, rng)
   ctx.label = None
   n, V, K = P.n, P.vals, P.kinds
   c['pools'] += 1
   c['values'] += n
+  c['values_reached_by_clone'] += P.cloned
+  c['pools_with_nan_or_unequal_leaf'] += bool(pal.hostile)
   strict_hash = bool(ctx.params.get('strict_hash'))
   c['hash_equal_across_classes'] += 0
 
   SH = P.shown
 
   def report(clause, idx, detail, raising=False, mech=None):
-    ctx.violation(clause, mech or P.mech(idx, raising), detail, P.witness(idx))
+    ctx.violation(clause, mech or P.mech(idx, raising, clause), detail, P.witness(idx))
 
   bad = set()         # unordered pairs that already violate a pair law
+  # Pairs on which the order sentences are silent (a NaN / Unequal leaf has to be
+  # compared with another object): ne/eq consistency, symmetry, gt and eq => equal
+  # hash are still judged; they take no part in triples and in the sorted order.
+  silent = set()
+  for a in range(n):
+    for b in range(a + 1, n):
+      if pal.hostile and undetermined(V[a], V[b]):
+        silent.add((a, b))
+  c['pairs_order_silent'] += len(silent)
 
   def bad_pair(a, b):
     bad.add((min(a, b), max(a, b)))
@@ -1164,6 +1447,13 @@ def run_case(ctx, i):
           report('eq-asymmetric', (a, b), f'pg.eq(a,b)={ea} pg.eq(b,a)={eb} '
                  f'a={SH[a]} b={SH[b]}')
           continue
+      if (a, b) in silent:
+        if ea and HS[a] is not None and HS[b] is not None:
+          c['hash_agreement_checks'] += 1
+          if HS[a] != HS[b]:
+            report('eq-hash-differ', (a, b), f'pg.eq is True but pg.hash differs: '
+                   f'a={SH[a]} b={SH[b]}')
+        continue
       if a != b and descs[a] == descs[b] and ea is not None:
         c['twin_checks'] += 1
         if not ea:
@@ -1172,10 +1462,14 @@ def run_case(ctx, i):
                  f'are not pg.eq: {SH[a]}')
       if ea and V[a] is not V[b]:
         c['pairs_eq_true_nonidentical'] += 1
-        if 'object-key-order' in P.flags(a, b):
+        fl = P.flags(a, b)
+        if 'object-key-order' in fl:
           c['pairs_eq_object_key_order'] += 1
           if K[a] != 'object':
             c['pairs_eq_object_key_order_nested'] += 1
+        for x in SPECIAL:
+          if x in fl:
+            c['pairs_eq_' + x] += 1
         if K[a] != K[b]:
           collide = True
       if ea and HS[a] is not None and HS[b] is not None:
@@ -1248,9 +1542,11 @@ def run_case(ctx, i):
                f'a={SH[a]} b={SH[b]}', mech='object')
 
   # -- triples on the recorded results -------------------------------------------
+  excluded = bad | silent
+
   def clean(a, b, k):
     return not ({(min(a, b), max(a, b)), (min(b, k), max(b, k)), (min(a, k), max(a, k))}
-                & bad)
+                & excluded)
 
   reported = set()
   for a in range(n):
@@ -1317,7 +1613,7 @@ def run_case(ctx, i):
     report('sort-raises', (), f'sorted() raised {res.text}', mech='sorted')
 
   # The sub-pool whose pairs all satisfy the pair laws must come out ordered.
-  dirty = {x for pr in bad for x in pr}
+  dirty = {x for pr in excluded for x in pr}
   cleanidx = [x for x in order if x not in dirty]
   res2 = call(lambda: sorted(cleanidx, key=functools.cmp_to_key(cmp)))
   if isinstance(res2, Raised):
